@@ -58,12 +58,14 @@ def inconclusive(prop, reason, code=2):
 
 
 def write_evidence(prop, tier, seed, coverage, wall, nviol, assumptions):
-    os.makedirs(os.path.join(HERE, "evidence"), exist_ok=True)
+    # evidence is only ever written for /repo itself; runs against scratch trees (mutant validation) go elsewhere
+    evdir = os.path.join(HERE, "evidence") if os.path.realpath(repo_path()) == "/repo" else os.path.join(HERE, "out", "scratch-evidence")
+    os.makedirs(evdir, exist_ok=True)
     ev = {
         "property_id": prop, "tier": tier, "seed": seed, "level": "exploration", "coverage": coverage,
         "assumptions": assumptions, "wall_s": round(wall, 2), "violations": nviol,
     }
-    with open(os.path.join(HERE, "evidence", f"{prop}.json"), "w") as fh:
+    with open(os.path.join(evdir, f"{prop}.json"), "w") as fh:
         json.dump(ev, fh, indent=1, default=str)
 
 
@@ -84,7 +86,7 @@ def run_check(prop, tier, seed, jobs):
     ncases, deadline = mod.PLAN[tier]
     scale = float(os.environ.get("VERIF_SCALE", "1"))
     ncases = max(jobs, int(ncases * scale))
-    outdir = os.path.join(HERE, "out", prop)
+    outdir = os.path.join(HERE, "out", prop if os.path.realpath(repo_path()) == "/repo" else prop + "-scratch")
     shutil.rmtree(outdir, ignore_errors=True)  # replay files of earlier runs are stale
     os.makedirs(outdir, exist_ok=True)
     tmp = tempfile.mkdtemp(prefix=f"vmon-{prop}-", dir=os.path.join(HERE, "out"))
